@@ -60,12 +60,18 @@ IfTexts(d) == IF d = 0 THEN {<<"a">>}
               ELSE IfTexts(d - 1) \cup {<<"if", "c", "then">> \o x : x \in IfTexts(d - 1)}
                    \cup {<<"if", "c", "then">> \o x \o <<"else">> \o y : x \in IfTexts(d - 1), y \in IfTexts(d - 1)}
 
-\* postfix chains nest left to right:  base (.a | [1] | .m(2))*
-ApplyPostfix(e, p) == CASE p = "field" -> GetF(e, "a") [] p = "index" -> Idx(e, IntL(1)) [] p = "method" -> MCallN(e, "m", <<IntL(2)>>)
-PostfixToks(p) == CASE p = "field" -> <<".", "a">> [] p = "index" -> <<"[", "1", "]">> [] p = "method" -> <<".", "m", "(", "2", ")">>
-RECURSIVE ChainTree(_,_), ChainToks(_)
-ChainTree(e, ps) == IF ps = <<>> THEN e ELSE ChainTree(ApplyPostfix(e, Head(ps)), Tail(ps))
-ChainToks(ps) == IF ps = <<>> THEN <<>> ELSE PostfixToks(Head(ps)) \o ChainToks(Tail(ps))
+\* postfix chains nest left to right:  base (.f | [i] | .m(j))*  ; the k-th postfix operator uses its own names so that
+\* a reordered chain is a different tree
+FName(k) == CASE k = 1 -> "a" [] k = 2 -> "b" [] k = 3 -> "c" [] OTHER -> "d"
+MName(k) == CASE k = 1 -> "m" [] k = 2 -> "n" [] k = 3 -> "o" [] OTHER -> "p"
+KTok(k) == CASE k = 1 -> "1" [] k = 2 -> "2" [] k = 3 -> "3" [] OTHER -> "4"
+ApplyPostfix(e, p, k) == CASE p = "field" -> GetF(e, FName(k)) [] p = "index" -> Idx(e, IntL(k)) [] p = "method" -> MCallN(e, MName(k), <<IntL(k)>>)
+PostfixToks(p, k) == CASE p = "field" -> <<".", FName(k)>> [] p = "index" -> <<"[", KTok(k), "]">> [] p = "method" -> <<".", MName(k), "(", KTok(k), ")">>
+RECURSIVE ChainTreeK(_,_,_), ChainToksK(_,_)
+ChainTreeK(e, ps, k) == IF ps = <<>> THEN e ELSE ChainTreeK(ApplyPostfix(e, Head(ps), k), Tail(ps), k + 1)
+ChainToksK(ps, k) == IF ps = <<>> THEN <<>> ELSE PostfixToks(Head(ps), k) \o ChainToksK(Tail(ps), k + 1)
+ChainTree(e, ps) == ChainTreeK(e, ps, 1)
+ChainToks(ps) == ChainToksK(ps, 1)
 BaseTree(b) == CASE b = "var" -> Var("x") [] b = "call" -> CallN("f", <<IntL(1)>>) [] b = "paren" -> Var("x") [] b = "block" -> [t |-> "Block", es |-> <<Var("x")>>]
 BaseToks(b) == CASE b = "var" -> <<"x">> [] b = "call" -> <<"f", "(", "1", ")">> [] b = "paren" -> <<"(", "x", ")">> [] b = "block" -> <<"begin", "x", "end">>
 
